@@ -58,6 +58,11 @@ func init() {
 		Rules: []func(*Prog, *Result){ruleOutputPure, ruleCloneContract("C19.clone"), ruleDeepClone, ruleFieldWriterCensus("C19.docs")},
 	})
 	register(PropSpec{
+		ID:    "C04",
+		Title: "Results do not depend on which format (JSON/YAML/TOML) a layer is written in",
+		Rules: []func(*Prog, *Result){ruleC04Census, ruleC04Float, ruleC04Normalised("C04.normalised"), ruleC04Ext},
+	})
+	register(PropSpec{
 		ID:    "C09",
 		Title: "Evaluation is deterministic",
 		Rules: []func(*Prog, *Result){ruleMapRanges, ruleSortedMap, ruleGlobals, ruleNondetSources},
